@@ -17,6 +17,9 @@
 //!   pl=<node.shard,..|->        pool connections (not the control connection) accepted on the plain port
 //!   pre=<ports|->               the ports the harness really holds bound (a planned port it could not bind
 //!                               is not in the list: nothing is claimed about it)
+//!   busy=<ports|->              ports of the range the harness does not hold but could not bind either when the
+//!                               scenario started (TIME_WAIT of an earlier scenario on the same client address, foreign
+//!                               wildcard bind): busy for the driver as well, for an unknown part of the scenario
 //!   rq=<ok>.<sent>              requests sent while the pool was filling and after it was full
 //!   st=starved:<k>,some:<k>,mv:<k>,op:<k>,cc:<k>,ms:<k>
 //!       starved = (node, shard) pairs whose every port of the range is pre-bound or which have none;
@@ -25,7 +28,8 @@
 //!       op = connections accepted in total; cc = shard-aware connections closed by the client;
 //!       ms = wall time until the pool was full
 //! other observations: `not-run <reason>` (environment: mock / session did not start, the pool did not
-//! fill or a request did not return within the harness cap; counted and capped by checks/c11.py).
+//! fill or a request did not return within the harness cap, a port of the range that was free and unused
+//! is not bindable at the end; counted and capped by checks/c11.py).
 use scylla::client::PoolSize;
 use scylla::client::execution_profile::ExecutionProfile;
 use scylla::client::session_builder::SessionBuilder;
@@ -171,6 +175,12 @@ pub async fn run_scenario(c: Scn) -> String {
             }
         }
     }
+    // probe: every other port of the range must be bindable now (bound and released at once: no
+    // connection, no TIME_WAIT).  One that is not (TIME_WAIT left by an earlier scenario on the same
+    // client address, a foreign wildcard bind) is reported as busy=: the driver's attempts from it fail
+    // too, for an unknown part of the scenario.
+    let probe = |p: u16| -> bool { tokio::net::TcpSocket::new_v4().is_ok_and(|s| s.bind(SocketAddr::new(client_ip, p)).is_ok()) };
+    let busy: Vec<u16> = (c.lo..=c.hi).filter(|p| !pre.contains(p) && !probe(*p)).collect();
     let range = match ShardAwarePortRange::new(c.lo..=c.hi) {
         Ok(r) => r,
         Err(_) => {
@@ -227,8 +237,17 @@ pub async fn run_scenario(c: Scn) -> String {
     }
     let ms = t0.elapsed().as_millis();
     if is_full {
-        // excess connections are cleared and no further refill is due once the pool is full
-        tokio::time::sleep(Duration::from_millis(120)).await;
+        // excess connections are cleared and no further refill is due once the pool is full; wait until
+        // the mock has not accepted anything for 120 ms (attempts that were still on their way)
+        let opens = |cl: &MockCluster| cl.trace_snapshot().iter().filter(|e| matches!(e.ev, Ev::Open { .. })).count();
+        let (mut last, mut still) = (opens(&cluster), 0);
+        let tq = Instant::now();
+        while still < 2 && tq.elapsed() < Duration::from_secs(5) {
+            tokio::time::sleep(Duration::from_millis(60)).await;
+            let now = opens(&cluster);
+            if now == last { still += 1 } else { still = 0 }
+            last = now;
+        }
         for i in 0..(2 * c.n as u32 * c.nodes as u32) {
             rq_sent += 1;
             match tokio::time::timeout(Duration::from_secs(20), session.query_unpaged(format!("SELECT v FROM ks.t WHERE q = {}", 100 + i), ())).await {
@@ -271,6 +290,10 @@ pub async fn run_scenario(c: Scn) -> String {
             }
         }
     }
+    // end probe: a port of the range that was free at the start and carried no shard-aware connection must
+    // still be free; otherwise something outside the scenario took it meanwhile (nothing is judged)
+    let sa_ports: BTreeSet<u16> = trace.iter().filter_map(|e| match &e.ev { Ev::Open { peer_port, shard_aware_port: true } => Some(*peer_port), _ => None }).collect();
+    let changed = (c.lo..=c.hi).any(|p| !pre.contains(&p) && !busy.contains(&p) && !sa_ports.contains(&p) && !probe(p));
     // end: the mock resets every connection first (no TIME_WAIT on the client's ports), then the session goes
     cluster.shutdown();
     let t1 = Instant::now();
@@ -284,6 +307,9 @@ pub async fn run_scenario(c: Scn) -> String {
     }
     if !is_full {
         return format!("not-run pool-not-full-after-{}ms", ms);
+    }
+    if changed {
+        return "not-run port-of-the-range-taken-from-outside".into();
     }
     // coverage statistics (recomputed by the driver with the extracted model: starved)
     let (mut starved, mut some, mut mv) = (0u32, 0u32, 0u32);
@@ -302,10 +328,11 @@ pub async fn run_scenario(c: Scn) -> String {
         }
     }
     format!(
-        "sa={} pl={} pre={} rq={:x}.{:x} st=starved:{},some:{},mv:{},op:{},cc:{},ms:{}",
+        "sa={} pl={} pre={} busy={} rq={:x}.{:x} st=starved:{},some:{},mv:{},op:{},cc:{},ms:{}",
         join(&sa),
         join(&pl),
         if pre.is_empty() { "-".to_string() } else { pre.iter().map(|p| hex_u(*p as u128)).collect::<Vec<_>>().join(",") },
+        hex_list(&busy),
         rq_ok,
         rq_sent,
         starved,
